@@ -132,8 +132,14 @@ Proof.
       destruct (rebuild false (rev d) (rev new_) (zlen old) (p0 :: pts)) as [more|err]; [|reflexivity].
       cbn [res_map bind]. f_equal. f_equal. change (rev first :: map (@rev bool) more) with (map (@rev bool) (first :: more)).
       apply concat_rev_map_rev. }
+  assert (G0 :
+    (if zlen old =? 0 then Err ValueError else do2 (s, e) <- validate_slice d start stop; Ok (d, 0)) =
+    res_map (fun '(r, n) => (rev r, n))
+    (if zlen (rev old) =? 0 then Err ValueError else do2 (s, e) <- validate_slice (rev d) start stop; Ok (rev d, 0))).
+  { rewrite zlen_rev, validate_slice_rev. destruct (zlen old =? 0); [reflexivity|].
+    destruct (validate_slice d start stop) as [[s e]|err]; [|reflexivity]. cbn [bind res_map]. now rewrite rev_involutive. }
   unfold ba_replace. destruct count as [[|c|c]|].
-  - cbn [res_map]. now rewrite rev_involutive.
+  - exact G0.
   - apply G.
   - apply G.
   - apply G.
